@@ -13,7 +13,7 @@ vars == <<l, nbad, c, st>>
 NoCase == [ev |-> "none"]
 Init == /\ l = 1 /\ nbad = NoBad /\ c = NoCase
         /\ st = [cases |-> 0, loaded |-> 0, errors |-> 0, constants |-> 0, runs_ok |-> 0, runs_err |-> 0,
-                 runs_panic |-> 0, runs_other |-> 0]
+                 runs_panic |-> 0, runs_other |-> 0, alloc_over |-> 0]
 
 e == Rec[l]
 Sig(class, detail) == [fmt |-> c.fmt, api |-> c.api, class |-> class, detail |-> detail, build |-> c.build]
@@ -27,7 +27,8 @@ Load == /\ e.ev = "load" /\ UNCHANGED c
         /\ nbad' = Flag(nbad, LegalLoadOutcome(e.outcome),
                         Sig(e.outcome, e.errclass), Ctx)
         /\ st' = [st EXCEPT !.loaded = @ + (IF e.outcome = "ok" THEN 1 ELSE 0),
-                            !.errors = @ + (IF e.outcome = "err" THEN 1 ELSE 0)]
+                            !.errors = @ + (IF e.outcome = "err" THEN 1 ELSE 0),
+                            !.alloc_over = @ + (IF BoundedLoadAlloc(e.maxalloc, c.n) THEN 0 ELSE 1)]
 
 \* "Every constant in a successfully loaded model has an element count that fits
 \* in memory and matches its backing data"
@@ -59,4 +60,5 @@ Report == l = NRec + 1 =>
             /\ Stat("cases", st.cases) /\ Stat("loaded", st.loaded) /\ Stat("errors", st.errors)
             /\ Stat("constants", st.constants) /\ Stat("runs_ok", st.runs_ok) /\ Stat("runs_err", st.runs_err)
             /\ Stat("runs_panic", st.runs_panic) /\ Stat("runs_other", st.runs_other)
+            /\ Stat("alloc_over", st.alloc_over)
 =============================================================================
